@@ -6,14 +6,24 @@ request in each of 3 prior states and followed by two probe requests (a valid `s
     load x V + missing / directory / undecodable file,  save x V + new file / directory / path below a regular file,
     request without version, non-JSON lines, JSON lines that are not objects, last line without newline
     V = null true 0 -1 3 4 1.5 1e999 "" "x" "3" [] ["x"] [1] {} {"A":1}
+Phase "matrix"/unicode: request strings that the server's stdout encoding may be unable to represent -- non-ASCII text
+(Latin-1, BMP, astral pair; \\u-escaped and raw UTF-8), lone / reversed surrogates (incl. the surrogateescape range), NUL --
+in every place a request string is echoed or stored (unknown option name, value of an option of each type, reset name / menu
+id, load / save file name, unknown key, version), x the same prior states and probes, x stdout encoding {utf-8, ascii}.
 Phase "seq": all sequences up to depth 3 (thorough 4) over one representative of each response class mixed with valid
 requests.
+
+Every in-process server life writes to what a real process has: a byte stream behind a STRICTLY encoding text layer
+(mck/server.py stdout_encoding), so a reply that cannot be encoded raises out of run_server in the middle of the line
+exactly as it kills the real process.
 
 Oracle (per case): run_server returns normally at EOF; stdout lines == input lines + 1; every line is one strict JSON
 object with `version`; where the documents demand it the reply carries `error`; the captured configuration (values, user
 values, choice picks), the files on disk and the replies to the probes equal those of the TWIN history in which just the
-offending entry is removed or -- the other reading the statement allows -- the whole offending request is removed.  In-process stdout is the captured `sys.stdout`; a subset is
-replayed on a real `python -m kconfserver` (conformance) whose stdout must be byte-identical.
+offending entry is removed or -- the other reading the statement allows -- the whole offending request is removed.  In-process stdout is the captured byte-level `sys.stdout`; a subset is
+replayed on a real `python -m kconfserver` (conformance) whose stdout must be byte-identical; the unicode cases run there
+with PYTHONIOENCODING=utf-8, =ascii and the environment's default, and that process is also judged on its own (exit status 0,
+one complete strict-JSON line per input line).
 
 What counts as offending (docs/en/kconfserver/index.rst "Kconfig Symbol Types", "Interaction", "Error Responses"):
     version: anything but the integers 1..3.     set: anything but an object.   reset: anything but an array of strings.
@@ -38,8 +48,10 @@ ID = "C15"
 LEVEL = "exploration"
 RULE = (
     "matrix: every (protocol key | option type) x JSON value alphabet request (plus file-system and non-JSON classes) x 3 "
-    "prior states x (server default version, request version) in {(3,3),(2,2),(1,1)} (thorough: all 9); seq: all sequences "
-    "of length <= 3 (thorough 4) over 17 representatives (one per response class + valid requests). One fresh real server "
+    "prior states x (server default version, request version) in {(3,3),(2,2),(1,1)} (thorough: all 9); unicode: 9 "
+    "strings (non-ASCII escaped/raw, lone and reversed surrogates, NUL) x 13..16 echo/store positions x the same priors and "
+    "pairs x stdout encoding {utf-8, ascii}, every server life on a strictly encoding byte-level stdout; seq: all sequences "
+    "of length <= 3 (thorough 4) over 18 representatives (one per response class + valid requests). One fresh real server "
     "per case and per twin. distinct_nontrivial = distinct (request class, prior state, protocol pair, reply line) for "
     "matrix cases and distinct (sequence of request classes, final configuration) for sequences."
 )
@@ -49,6 +61,12 @@ ASSUMPTIONS = [
     "a failed load/save must not change which file later `load`/`save` null use (checked through the probe `save` null); "
     "reported under its own kind session_differs_from_twin (request_class load:failed / save:failed)",
     "numbers outside an option's range are not offending (the protocol document says the server adjusts them)",
+    "the protocol is JSON lines on stdout of a process whose stdout encoding the client chooses (UTF-8 or a legacy / ASCII "
+    "code page): a reply must be encodable whatever strings the request carried; request LINES are pure ASCII (\\u escapes) "
+    "except the raw-UTF-8 variant, which is only generated for a UTF-8 stdin. Bytes on stdin that are not valid in the "
+    "stdin encoding are outside the explored space",
+    "a string option set to an unencodable string, and a save to a file name with such characters, are not offending (any "
+    "JSON string is a documented value / path): only liveness, reply count and reply shape are demanded for them",
 ]
 
 VALS = ["null", "true", "0", "-1", "3", "4", "1.5", "1e999", '""', '"x"', '"3"', "[]", '["x"]', "[1]", "{}", '{"A":1}']
@@ -255,6 +273,62 @@ def matrix(rv: int) -> List[dict]:
     return out
 
 
+# Strings a JSON request can carry that the server's stdout encoding may be unable to represent.  Spelled with \\uXXXX
+# escapes the request LINE is pure ASCII (deliverable through any stdin encoding); only the decoded string is unusual.
+USTR = [
+    ("latin1", "caf\\u00e9"),
+    ("bmp", "\\u4e16\\u754c"),
+    ("astral_pair", "\\ud83d\\ude00"),
+    ("lone_high_surrogate", "x\\ud83d"),
+    ("lone_low_surrogate", "\\ude00y"),
+    ("lone_low_surrogate_dc80", "\\udc80"),  # the range `surrogateescape` maps to raw bytes 0x80..0xff
+    ("reversed_pair", "\\ude00\\ud83d"),
+    ("nul", "a\\u0000b"),
+]
+# the same kind of text written raw (UTF-8 on the wire): only deliverable when stdin decodes UTF-8
+USTR_RAW = [("raw_utf8", "caf\u00e9 \u4e16\u754c \U0001f600")]
+STDOUT_ENCODINGS = ["utf-8", "ascii"]
+UGROUP = {
+    "latin1": "non_ascii",
+    "bmp": "non_ascii",
+    "astral_pair": "non_ascii",
+    "raw_utf8": "non_ascii",
+    "lone_high_surrogate": "lone_surrogate",
+    "lone_low_surrogate": "lone_surrogate",
+    "lone_low_surrogate_dc80": "lone_surrogate",
+    "reversed_pair": "lone_surrogate",
+    "nul": "nul",
+}
+
+
+def unicode_matrix(rv: int, enc: str) -> List[dict]:
+    """every place where a request string is echoed (error texts) or stored and reported (values), x USTR"""
+    out: List[dict] = []
+    V = f'"version": {rv}'
+    ok_set = f'{{{V}, "set": {{{SIB}}}}}'
+    for uname, u in USTR + (USTR_RAW if enc == "utf-8" else []):
+        tag = f"[{UGROUP[uname]}]"  # failure classes are named by the group, the message carries the request line
+        out.append(case("set:unknown_option" + tag, f'{{{V}, "set": {{"NOPE{u}": 1}}}}', None, "invalid"))
+        out.append(case("set:unknown_option" + tag + "+sibling", f'{{{V}, "set": {{{SIB}, "NOPE{u}": 1}}}}', ok_set, "invalid"))
+        # any JSON string is a documented value of a string option: only liveness / reply shape is demanded
+        out.append(case("set:string<-string" + tag, f'{{{V}, "set": {{"S": "{u}"}}}}', None, "valid"))
+        for t in ("bool", "int", "hex", "float"):
+            out.append(case(f"set:{t}<-string" + tag, f'{{{V}, "set": {{"{OPTS[t]}": "{u}"}}}}', None, "invalid"))
+        if rv >= 3:
+            out.append(case("reset:unknown_symbol" + tag, f'{{{V}, "reset": ["{u}"]}}', None, "invalid"))
+            out.append(case("reset:unknown_symbol+valid" + tag, f'{{{V}, "reset": ["I", "NOPE{u}"]}}', f'{{{V}, "reset": ["I"]}}', "invalid"))
+            out.append(case("reset:unknown_menu" + tag, f'{{{V}, "reset": ["I", "m-{u}-1"]}}', f'{{{V}, "reset": ["I"]}}', "invalid"))
+        out.append(case("load:missing_file" + tag, f'{{{V}, "load": "$D/missing{u}", "set": {{{SIB}}}}}', ok_set, "invalid", need_error=True))
+        # whether such a name can be created is the file system's business: only liveness / reply shape is demanded
+        out.append(case("save:new_file" + tag, f'{{{V}, "save": "$D/new{u}"}}', None, "valid"))
+        out.append(case("save:missing_directory" + tag, f'{{{V}, "set": {{{SIB}}}, "save": "$D/nodir{u}/x"}}', ok_set, "invalid", need_error=True))
+        out.append(case("unknown_key" + tag, f'{{{V}, "{u}": 1, "set": {{{SIB}}}}}', None, "valid"))
+        out.append(case("version<-string" + tag, f'{{"version": "{u}", "set": {{{SIB}}}}}', None, "invalid", need_error=True))
+        if (uname, u) in USTR_RAW:
+            out.append(case("nonjson:word" + tag, f"garbage {u}", None, "invalid", need_error=True))
+    return out
+
+
 # representatives for the sequence phase: (class, line, twin line or None=removed / "same")
 def representatives() -> List[Tuple[str, str, Optional[str], str]]:
     """(name, line, twin line | None = removed | "same" = not offending, request class used if this request kills the server)"""
@@ -277,6 +351,7 @@ def representatives() -> List[Tuple[str, str, Optional[str], str]]:
         ("bad:reset_unknown", f'{{{V}, "reset": ["NOPE", "no-such-menu-1"]}}', None, "reset:unknown_symbol"),
         ("bad:reset_v2", '{"version": 2, "reset": ["I"]}', None, "reset:unsupported_protocol"),
         ("bad:hex_float", f'{{{V}, "set": {{"H": 1.5}}}}', None, "set:hex<-float"),
+        ("bad:unencodable_name", f'{{{V}, "set": {{"NOPE\\ud83d": 1, "S": "t"}}}}', f'{{{V}, "set": {{"S": "t"}}}}', "set:unknown_option[lone_surrogate]"),
     ]
 
 
@@ -291,6 +366,11 @@ def items(tier: str, seed: int):
         cases = matrix(rv)
         for i in range(0, len(cases), CHUNK):
             out.append({"phase": "matrix", "dv": dv, "rv": rv, "cases": cases[i : i + CHUNK]})
+    for dv, rv in PAIRS_QUICK if tier == "quick" else PAIRS_ALL:
+        for enc in STDOUT_ENCODINGS:
+            cases = unicode_matrix(rv, enc)
+            for i in range(0, len(cases), CHUNK):
+                out.append({"phase": "matrix", "dv": dv, "rv": rv, "enc": enc, "cases": cases[i : i + CHUNK]})
     reps = representatives()
     depth = 3 if tier == "quick" else 4
     for i in range(len(reps)):
@@ -319,8 +399,9 @@ def files() -> Dict[str, str]:
     return FILES
 
 
-def do_run(reqs: List[str], dv: int) -> server.Run:
-    return server.run(files(), reqs, sdkconfig=SDK0, default_version=dv, aux=AUX)
+def do_run(reqs: List[str], dv: int, enc: str = "utf-8") -> server.Run:
+    """in-process server life whose stdout is, like a real process's, a byte stream behind a strictly encoding text layer"""
+    return server.run(files(), reqs, sdkconfig=SDK0, default_version=dv, aux=AUX, stdout_encoding=enc)
 
 
 def generic_checks(r: common.Result, run: server.Run, reqs: List[str], cls: str, msg_ctx: str, cs: dict) -> Optional[List[Optional[dict]]]:
@@ -382,14 +463,20 @@ def compare_with_twin(r: common.Result, main: server.Run, twin: server.Run, npro
     return True
 
 
-def check_case(r: common.Result, dv: int, rv: int, pi: int, c: dict) -> None:
+def check_case(r: common.Result, dv: int, rv: int, pi: int, c: dict, enc: str = "utf-8") -> None:
     prior = PRIORS[pi]
     cls = c["cls"].replace("+sibling", "")  # the sibling variant is part of the case, not of the failure class
+    if enc != "utf-8":
+        cls += f"@{enc}-stdout"
     reqs = prior + [c["line"]] + PROBES
-    cs = {"phase": "matrix", "dv": dv, "rv": rv, "prior": pi, "case": c}
-    ctx = f"[dv={dv} prior#{pi}] {cls}: {c['line']!r}"
+    cs = {"phase": "matrix", "dv": dv, "rv": rv, "prior": pi, "enc": enc, "case": c}
+    ctx = f"[dv={dv} prior#{pi} stdout={enc}] {cls}: {c['line']!r}"
     r.evals += 1
-    main = do_run(reqs, dv)
+
+    def run_(reqs_: List[str], dv_: int) -> server.Run:  # every life of this case (twins too) on the same kind of stdout
+        return do_run(reqs_, dv_, enc)
+
+    main = run_(reqs, dv)
     parsed = generic_checks(r, main, reqs, cls, ctx, cs)
     if parsed is None:
         return
@@ -405,7 +492,7 @@ def check_case(r: common.Result, dv: int, rv: int, pi: int, c: dict) -> None:
     if c["expect"] == "valid" or len(main.lines) != len(reqs) + 1:
         return
     treqs = prior + ([c["twin"]] if c["twin"] is not None else []) + PROBES
-    twin = do_run(treqs, dv)
+    twin = run_(treqs, dv)
     r.evals += 1
     if twin.exc is not None or len(twin.lines) != len(treqs) + 1:
         generic_checks(r, twin, treqs, "twin-of:" + cls, ctx + " (twin)", cs)
@@ -414,7 +501,7 @@ def check_case(r: common.Result, dv: int, rv: int, pi: int, c: dict) -> None:
         if server.config_state(main.kconfig) == server.config_state(twin.kconfig):
             r.count("tolerated_form_ignored")
             return
-        canon = do_run(prior + [c["canon"]] + PROBES, dv)
+        canon = run_(prior + [c["canon"]] + PROBES, dv)
         r.evals += 1
         if canon.exc is None and server.config_state(canon.kconfig) == server.config_state(main.kconfig):
             r.count("tolerated_form_applied_like_canonical")
@@ -424,7 +511,7 @@ def check_case(r: common.Result, dv: int, rv: int, pi: int, c: dict) -> None:
         return
     if c["twin"] is not None:
         # the other documented reading: the whole offending request is refused
-        twin2 = do_run(prior + PROBES, dv)
+        twin2 = run_(prior + PROBES, dv)
         r.evals += 1
         if twin2.exc is None and compare_with_twin(common.Result(), main, twin2, len(PROBES), {}, ctx, cs):
             r.count("whole_request_refused")
@@ -513,8 +600,8 @@ def run_item(item) -> common.Result:
     if item["phase"] == "matrix":
         for c in item["cases"]:
             for pi in range(len(PRIORS)):
-                check_case(r, item["dv"], item["rv"], pi, c)
-        r.sample = {"phase": "matrix", "server_default_version": item["dv"], "kconfig": files()["Kconfig"], "priors": PRIORS, "probes": PROBES,
+                check_case(r, item["dv"], item["rv"], pi, c, item.get("enc", "utf-8"))
+        r.sample = {"phase": "matrix", "server_default_version": item["dv"], "stdout_encoding": item.get("enc", "utf-8"), "kconfig": files()["Kconfig"], "priors": PRIORS, "probes": PROBES,
                     "requests": [c["line"] for c in item["cases"]]}
         return r
     reps = representatives()
@@ -531,7 +618,7 @@ def run_item(item) -> common.Result:
 def replay(case) -> List[dict]:
     r = common.Result()
     if case.get("phase") == "matrix":
-        check_case(r, case["dv"], case["rv"], case["prior"], case["case"])
+        check_case(r, case["dv"], case["rv"], case["prior"], case["case"], case.get("enc", "utf-8"))
     elif case.get("phase") == "seq":
         check_seq(r, case["dv"], list(case["seq"]), representatives())
     elif case.get("phase") == "subprocess":
@@ -557,15 +644,30 @@ def conformance_cases(tier: str) -> List[dict]:
         out.append({"phase": "subprocess", "cls": c["cls"], "requests": PRIORS[pi] + [c["line"]] + PROBES})
     # and the no-trailing-newline variant of a valid request
     out[-1] = {"phase": "subprocess", "cls": "eof_without_newline", "requests": [PROBES[0] + server.NO_NL]}
+    # request strings the stdout encoding may be unable to represent: the real process with PYTHONIOENCODING = utf-8 / ascii
+    # (strict, what IDE clients set) and with the environment's default (C locale: utf-8 with surrogateescape)
+    m = 4 if tier == "quick" else 24
+    for enc, env in (("utf-8", {"PYTHONIOENCODING": "utf-8"}), ("ascii", {"PYTHONIOENCODING": "ascii"}), ("utf-8", None)):
+        ucases = unicode_matrix(3, enc if env else "ascii")  # without an explicit stdin encoding only pure-ASCII lines
+        ustep = max(1, len(ucases) // m)
+        for i in range(m):
+            c = ucases[(i * ustep + i % ustep) % len(ucases)]
+            out.append({"phase": "subprocess", "cls": c["cls"] + (f"@{env['PYTHONIOENCODING']}-process" if env else "@default-process"),
+                        "requests": PRIORS[i % len(PRIORS)] + [c["line"]] + PROBES, "enc": enc, "env": env})
     return out
+
+
+def run_sub(case: dict) -> dict:
+    return server.run_subprocess(files(), list(case["requests"]), sdkconfig=SDK0, default_version=None, aux=AUX,
+                                 env_extra=case.get("env"), errors="backslashreplace")
 
 
 def conformance_one(case: dict, sub: Optional[dict] = None) -> List[dict]:
     reqs = list(case["requests"])
     cls = case["cls"]
-    inproc = do_run(reqs, 3)
+    inproc = do_run(reqs, 3, case.get("enc", "utf-8"))
     if sub is None:
-        sub = server.run_subprocess(files(), reqs, sdkconfig=SDK0, default_version=None, aux=AUX)
+        sub = run_sub(case)
     viols = []
     if sub["raw"] != inproc.raw:
         a, b_ = sub["lines"], inproc.lines
@@ -579,11 +681,20 @@ def conformance_one(case: dict, sub: Optional[dict] = None) -> List[dict]:
                 "case": case,
             }
         )
-    if inproc.exc is None and sub["rc"] != 0:
+    own = "env" in case  # byte-level stdout cases: the real process is judged on its own, not only against the in-process run
+    if (inproc.exc is None or own) and sub["rc"] != 0:
         viols.append({"sig": {"kind": "subprocess_exit_status", "request_class": cls, "rc": sub["rc"]}, "msg": f"{cls}: python -m kconfserver exited with {sub['rc']}: {sub['stderr'][-200:]}", "case": case})
-    if inproc.exc is None and len(sub["lines"]) != len(reqs) + 1:
+    if (inproc.exc is None or own) and len(sub["lines"]) != len(reqs) + 1:
         viols.append({"sig": {"kind": "reply_count", "request_class": "subprocess:" + cls, "stdout_lines": "too_many" if len(sub["lines"]) > len(reqs) + 1 else "too_few"},
                       "msg": f"{cls}: subprocess wrote {len(sub['lines'])} stdout lines for {len(reqs)} input lines", "case": case})
+    if own:
+        bad = next(((i, server.parse_reply(ln)[1]) for i, ln in enumerate(sub["lines"]) if server.parse_reply(ln)[0] is None), None)
+        if bad is None and sub["raw"] and not sub["raw"].endswith("\n"):
+            bad = (len(sub["lines"]) - 1, "unterminated line")
+        if bad is not None:
+            i, why = bad
+            viols.append({"sig": {"kind": "stdout_not_protocol_json", "request_class": "subprocess:" + cls, "why": why.split(" (")[0]},
+                          "msg": f"{cls}: stdout line {i} of `python -m kconfserver` is not a complete protocol reply ({why}): {sub['lines'][i][:100]!r}", "case": case})
     return viols
 
 
@@ -597,10 +708,10 @@ def conformance(tier: str, seed: int):
         common.silence_stderr()
     try:
         cases = conformance_cases(tier)
-        fl = files()
+        files()
         # the real servers are independent OS processes: up to 8 at a time; the in-process twins stay sequential
         with ThreadPoolExecutor(max_workers=8) as ex:
-            subs = list(ex.map(lambda c: server.run_subprocess(fl, list(c["requests"]), sdkconfig=SDK0, default_version=None, aux=AUX), cases))
+            subs = list(ex.map(run_sub, cases))
         for case_, sub in zip(cases, subs):
             viols.extend(conformance_one(case_, sub))
     finally:
